@@ -793,13 +793,20 @@ def oracle_c10(impl_lines):
             if l.startswith("> # WANT "):
                 want = []
             elif l.startswith("> # WANTE "):
+                if want is None:
+                    want = []
                 want.append(l[len("> # WANTE "):].strip())
+            elif l.startswith("> M encodearr"):
+                got = []
+                active = "prefix"       # the buffer's NUL padding decodes to further elements
             elif l.startswith("> M encode") or l.startswith("> M ets"):
                 got = []
                 active = True
             elif l.startswith("E ") and active:
                 got.append(l[2:].strip())
             elif l.startswith("> ") and active:
+                if active == "prefix" and want is not None:
+                    got = got[:len(want)]
                 active = False
                 if want is not None and got != want:
                     k = next((i for i in range(max(len(got), len(want))) if i >= len(got) or i >= len(want) or got[i] != want[i]), 0)
